@@ -8,6 +8,7 @@ require (
 	github.com/fxamacker/cbor/v2 v2.7.0
 	github.com/linxGnu/grocksdb v1.8.0
 	go.uber.org/zap v1.21.0
+	golang.org/x/crypto v0.7.0
 )
 
 require (
@@ -28,7 +29,6 @@ require (
 	github.com/x448/float16 v0.8.4 // indirect
 	go.uber.org/atomic v1.7.0 // indirect
 	go.uber.org/multierr v1.6.0 // indirect
-	golang.org/x/crypto v0.7.0 // indirect
 	golang.org/x/sync v0.7.0 // indirect
 	golang.org/x/sys v0.18.0 // indirect
 	golang.org/x/text v0.14.0 // indirect
